@@ -25,8 +25,9 @@ func ledgerCorpus3() []lHist {
 		{Ops: []lOp{ // debt-free positions (the loan of a 1.0001x open of a few thousand units truncates to zero) and an ordinary one; inside the
 			// lock hour a third party, then the owner, asks for their liquidation; the owner tries to close; after the hour the owner closes
 			{Op: "lev_open", U: 1, Amt: "5000", Lev: "1.0001", P: "0"}, {Op: "lev_open", U: 2, Amt: "900", Lev: "1.000001", P: "0"}, {Op: "lev_open", U: 3, Amt: "50000000", Lev: "2", P: "0"},
-			{Op: "blocks", N: 1, DT: 60}, {Op: "lev_close_positions", U: 4, Idx: 0, Dir: 0, N: 8}, {Op: "blocks", N: 1, DT: 5},
-			{Op: "lev_close_positions", U: 1, Idx: 0, Dir: 0, N: 1}, {Op: "lev_close_positions", U: 2, Idx: 1, Dir: 1, N: 1}, {Op: "lev_close", U: 1, Idx: 0, Rel: 5},
+			{Op: "blocks", N: 1, DT: 60}, {Op: "lev_close_positions", U: 4, Idx: 0, Dir: 0, N: 1}, {Op: "lev_close_positions", U: 4, Idx: 1, Dir: 0, N: 1},
+			{Op: "lev_close_positions", U: 4, Idx: 2, Dir: 0, N: 1}, {Op: "blocks", N: 1, DT: 5},
+			{Op: "lev_close_positions", U: 1, Idx: 0, Dir: 0, N: 8}, {Op: "lev_close_positions", U: 2, Idx: 1, Dir: 1, N: 1}, {Op: "lev_close", U: 1, Idx: 0, Rel: 5},
 			{Op: "blocks", N: 1, DT: 3700}, {Op: "lev_close", U: 1, Idx: 0, Rel: 5}, {Op: "lev_close", U: 2, Idx: 0, Rel: 3}, {Op: "blocks", N: 1, DT: 5}}},
 		{Ops: []lOp{ // the same with stop-loss prices far above the LP token price (the sweep closes at stop loss, not as a liquidation), the middle position blocked
 			{Op: "lev_open", U: 1, Amt: "800000000", Lev: "3", P: "1000000"}, {Op: "lev_open", U: 2, Amt: "900000000", Lev: "5", P: "0"},
